@@ -21,9 +21,11 @@ BADNAMES = ['', 'a/b', '../x', 'a\\b']            # rejected by validCollectionN
 class Gen:
     """builds one history: HTTP requests, their model terms, and the expectations of the independent specification"""
 
-    def __init__(self, rng, hostile):
+    def __init__(self, rng, hostile, focus=None):
         self.rng = rng
         self.hostile = hostile        # C18 stream: mostly rejected requests
+        self.focus = focus            # extended search after a divergence: the kind of request to concentrate on
+        self.template = None          # ... and, for searches, the k/radius of the diverging request
         self.spec = {}                # name -> {'dim','q','metric','docs': {id: (vec, meta)}}
         self.steps = []
         self.vtok = {}
@@ -183,7 +185,9 @@ class Gen:
         c = self.spec.get(name)
         dim = c['dim'] if c else 2
         k = rng.choice([0, 0, 1, 3, 50, -1])
-        radius = rng.choice([0, 0, 0, 0.5, 10.0])
+        radius = rng.choice([0, 0, 0, 0.5, 10.0, -1.0])
+        if self.template and rng.random() < 0.7:
+            k, radius = self.template['k'], self.template['radius']
         off, lim = rng.choice([0, 0, 1, 3]), rng.choice([0, 0, 2, 5])
         flt = rng.choice([None, None, None, 'k == "v"', 'name EXISTS'])
         filter_ok = True
@@ -191,8 +195,8 @@ class Gen:
             flt, filter_ok = rng.choice(['k ==', '((', 'a == 1 b == 2', 'x DOES NOT']), False
         listing = (k == 0 and radius == 0)
         vlen = dim
-        if rng.random() < (0.1 if not self.hostile else 0.5):
-            vlen = rng.choice([0, dim + 1, max(dim - 1, 0), None])
+        if rng.random() < (0.1 if not self.hostile else (0.5 if not self.template else 0.9)):
+            vlen = rng.choice([0, dim + 1, dim + 3, max(dim - 1, 0), None])
         v = self.vec(vlen) if vlen is not None else None
         text = rng.random() < 0.03
         get = rng.random() < 0.25 and not text
@@ -225,10 +229,21 @@ class Gen:
     def probes(self):
         self.step('GET', '/api/v1/collections', None, 'ListC', 'list', malformed=False, unknown=False)
         for name in NAMES[:3] + [GHOST]:
-            self.step('GET', '/api/v1/collections/%s/ids' % quote(name), None, 'Ids %d%%N' % TOK[name], 'ids', malformed=False, unknown=name not in self.spec, name=name)
-            if name in self.spec:
+            c = self.spec.get(name)
+            self.step('GET', '/api/v1/collections/%s/ids' % quote(name), None, 'Ids %d%%N' % TOK[name], 'ids', malformed=False, unknown=name not in self.spec, name=name,
+                      expect=sorted(c['docs']) if c else None)
+            if c is not None:
                 self.step('POST', '/api/v1/collections/%s/search' % quote(name), '{}', 'Search %d%%N true true false true true 0%%Z false 0%%N 0%%N' % TOK[name], 'search',
-                          malformed=False, unknown=False, name=name, search=dict(k=0, radius=0, off=0, lim=0, flt=None, v=None, listing=True), probe=True)
+                          malformed=False, unknown=False, name=name, search=dict(k=0, radius=0, off=0, lim=0, flt=None, v=None, listing=True), probe=True,
+                          expect=[(i, c['docs'][i][1]) for i in sorted(c['docs'], key=str)])
+                if c['docs'] and self.rng.random() < 0.5:
+                    # every stored vector, through the distances of an exact search from one of them
+                    qid = self.rng.choice(sorted(c['docs']))
+                    qv = c['docs'][qid][0]
+                    want = sorted((dist(c['metric'], qv, [stored(c['q'], x) for x in v]), i) for i, (v, _) in c['docs'].items())
+                    self.step('POST', '/api/v1/collections/%s/search' % quote(name), json.dumps({'vector': qv, 'k': len(c['docs']) + 3, 'precision': 'exact'}),
+                              'Search %d%%N true true false false true (%d)%%Z false 0%%N 0%%N' % (TOK[name], len(qv)), 'search', malformed=False, unknown=False, name=name,
+                              search=dict(k=len(c['docs']) + 3, radius=0, off=0, lim=0, flt=None, v=qv, listing=False), vecprobe=True, expect=want)
         name = self.rng.choice(NAMES[:3])
         self.step('GET', '/api/v1/collections/%s' % quote(name), None, 'Info %d%%N' % TOK[name], 'info', malformed=False, unknown=name not in self.spec, name=name)
 
@@ -253,9 +268,17 @@ class Gen:
         self.create()
         self.create()
         self.probes()
+        if self.focus:
+            # populated collections first: most defects need documents to show
+            hostile, self.hostile = self.hostile, False
+            for _ in range(4):
+                self.insert()
+            self.hostile = hostile
         for _ in range(nops):
             r = rng.random()
-            if r < 0.14:
+            if self.focus and rng.random() < 0.5:
+                getattr(self, self.focus)()
+            elif r < 0.14:
                 self.create()
             elif r < 0.42:
                 self.insert()
@@ -297,7 +320,7 @@ def observe(srv, st):
     return srv.request(st['method'], st['path'], st['body'])
 
 
-def enc_observed(st, status, body):
+def enc_observed(st, status, body, mtok={}):
     """flat encoding matching coq/Model/RestWire.v"""
     if status == 'dropped':
         return [-2, -7]
@@ -315,8 +338,8 @@ def enc_observed(st, status, body):
     elif status == 200 and k == 'search' and isinstance(body, dict):
         s = st['search']
         if s['listing'] and s['flt'] is None:
-            ids = [int(r['id']) for r in body.get('results') or []]
-            out += [1, len(ids)] + ids
+            rows = [(int(r['id']), mtok.get(json.dumps(r.get('metadata'), sort_keys=True), 0)) for r in body.get('results') or []]
+            out += [5, len(rows)] + [y for r in rows for y in r]
         else:
             out += [4]
     else:
@@ -349,6 +372,21 @@ def spec_judge(g, obs, prop):
             odd = [x.get('name') for x in body if x.get('name') not in NAMES]
             if odd:
                 yield i, 'the collection list names %r, which was never created (created names: %s)' % (odd[0], NAMES), 'rest:C17:list-name'
+        if prop == 'C17' and 'expect' in st and status == 200:
+            if k == 'ids' and st['expect'] is not None and [int(x) for x in (body or [])] != st['expect']:
+                yield i, 'ids of %s are %s, the specification has %s' % (st['name'], str(body)[:80], st['expect'][:20]), 'rest:C17:ids'
+            if st.get('probe') and isinstance(body, dict):
+                got = [(int(r['id']), r.get('metadata')) for r in (body.get('results') or [])]
+                if got != st['expect']:
+                    bad = next((a for a, b2 in zip(got, st['expect']) if a != b2), None)
+                    yield i, ('listing of %s differs from the specification (ids in string order, each with the metadata of its last accepted write): got %s, want %s'
+                              % (st['name'], str(bad or got)[:120], str(next((b2 for a, b2 in zip(got, st['expect']) if a != b2), st['expect']))[:120])), 'rest:C17:listing'
+            if st.get('vecprobe') and isinstance(body, dict):
+                got = sorted((float(r['distance']), int(r['id'])) for r in (body.get('results') or []))
+                want = st['expect']
+                if [g_[1] for g_ in sorted(got, key=lambda t: t[1])] != [w_[1] for w_ in sorted(want, key=lambda t: t[1])] or \
+                        any(abs(dict((i2, d2) for d2, i2 in got)[i2] - d2) > 1e-9 * max(1.0, abs(d2)) for d2, i2 in want if d2 == d2):
+                    yield i, 'exact search over %s: distances %s do not match the vectors of the last accepted writes %s' % (st['name'], str(got)[:100], str(want)[:100]), 'rest:C17:vectors'
         if st.get('embed') and not st['malformed'] and not st['unknown']:
             continue            # needs the embedding service: any complete answer is acceptable here
         allowed = set()
@@ -386,7 +424,7 @@ def dict_judge(g, obs, prop):
     # group steps into blocks: one non-probe step followed by its probes
     blocks, cur = [], None
     for st, ob in zip(g.steps, obs):
-        if st['kind'] in ('list', 'ids', 'info') or st.get('probe'):
+        if st['kind'] in ('list', 'ids', 'info') or st.get('probe') or st.get('vecprobe'):
             if cur is not None:
                 cur['probes'].append((st, ob))
         else:
@@ -560,13 +598,40 @@ def check(prop, tier, seed, replay=None):
                         pass        # model mirrors the code here (200); the specification's verdict is the known finding
                     if st.get('embed') and isinstance(status, int) and status >= 500 and mr[0] >= 500:
                         continue
-                    er = enc_observed(st, status, bodyv)
+                    er = enc_observed(st, status, bodyv, g.mtok)
                     if er != mr and corr is None:
                         corr = {'engine': 'rest', 'channel': 'X.rest.response', 'what': 'response of the implementation differs from the handler model',
-                                'request': '%s %s %s' % (st['method'], st['path'], (st['body'] or '')[:300]), 'model_term': st['model'],
+                                'request': '%s %s %s' % (st['method'], st['path'], (st['body'] or '')[:300]), 'model_term': st['model'], 'kind': st['kind'], 'search': st.get('search'),
                                 'implementation': er[:40], 'model': mr[:40], 'history_prefix': [s['model'] for s, _ in steps[:j + 1]][-25:]}
                 if len(mresp) != len(steps) and corr is None:
                     corr = {'engine': 'rest', 'channel': 'X.rest.response', 'what': 'model produced %d responses for %d requests' % (len(mresp), len(steps))}
+    # ---- a divergence without a failing input so far: concentrate on the kind of request that diverged
+    if nviol == 0 and corr and corr.get('kind') in ('create', 'insert', 'update', 'delete', 'drop', 'search'):
+        ext = 0
+        while ext < (40 if tier == 'quick' else 400) and nviol == 0 and time.time() < t_end + 120:
+            ext += 1
+            g = Gen(random.Random(rng.randrange(2 ** 62)), True, focus=corr['kind'])
+            g.template = corr.get('search')
+            g.build(20)
+            srv = Server()
+            try:
+                if not srv.start():
+                    break
+                obs = run_history(srv, g)
+            finally:
+                srv.cleanup()
+            whys = list(spec_judge(g, obs, prop))
+            dj = dict_judge(g, obs, prop)
+            if dj:
+                whys.append(dj)
+            for idx, what, sig in whys:
+                rep = {'engine': 'rest', 'what': what, 'signature': sig, 'step_index': idx, 'found_by': 'extended search after the model/implementation divergence on a %s request' % corr['kind'],
+                       'steps': [{'method': st['method'], 'path': st['path'], 'body': st['body'], 'kind': st['kind']} for st in g.steps[:idx + 12]],
+                       'observed_status': [o[0] for o in obs[:idx + 12]]}
+                if chk.violation(rep):
+                    nviol += 1
+                    break
+        chk.notes.append('extended search ran %d further histories concentrated on %s requests' % (ext, corr['kind']))
     # ---- C18: embedded constructor
     if prop == 'C18' and nviol == 0:
         cases, res, bad, (rc, err) = ctor_probe(chk)
